@@ -1222,10 +1222,27 @@ pub fn record_bombs(label: &str, s: &[u8], biff: bool, thorough: bool, mk: &dyn 
         }
         let size = r.hdr + r.len;
         let n = (per / size.max(1)).clamp(200, 40_000);
-        out.push(vec![mk(
+        let mut g = Vec::new();
+        if biff {
+            // BoundSheet records hold absolute stream positions: keep the sheets where the flood
+            // pushes them, so that the workbook still opens and its sheets are read against the
+            // flooded tables (these edits come first: they use the offsets before the insertion)
+            let first_sheet = recs.iter().filter(|x| x.typ == 0x0809).nth(1).map(|x| x.off).unwrap_or(usize::MAX);
+            if r.off < first_sheet {
+                for b in recs.iter().filter(|x| whole(x) && x.typ == 0x0085 && x.len >= 4) {
+                    let at = b.off + b.hdr;
+                    let pos = u32::from_le_bytes([s[at], s[at + 1], s[at + 2], s[at + 3]]) as usize;
+                    if pos > r.off {
+                        g.push(mk(Edit::Set { off: at, bytes: ((pos + n * size) as u32).to_le_bytes().to_vec() }, format!("{}:record-flood (sheet position moved by the length of the flood) base={} per={}", pfx, pos, size)));
+                    }
+                }
+            }
+        }
+        g.push(mk(
             Edit::Repeat { off: r.off + size, pattern: s[r.off..r.off + size].to_vec(), count: n as u32, start: 0, step: 0, le: vec![] },
             format!("{}:record-flood {} record at {} type {:#06x} followed by {} copies of itself", pfx, label, r.off, r.typ, n),
-        )]);
+        ));
+        out.push(g);
     }
     if biff {
         // number format made of opening brackets
